@@ -142,6 +142,18 @@ Theorem C01_grad_correct_distancePairs_element : forall cell pbc co e i j (s : S
 Proof. exact cvc_grad_correct_distancePairs_elem. Qed.
 Print Assumptions C01_grad_correct_distancePairs_element.
 
+(* rmsd with its optimal rotation (rotated frame): hypotheses = what the eigen-solver must deliver (an optimal unit quaternion;
+   C02_eigen_decomposition_is_optimal shows the top eigenvector of the overlap matrix is one) and differentiability of the
+   minimum rmsd at the configuration; conclusion = the applied forces (rotated back, without any derivative of the rotation)
+   are the exact gradient *)
+Theorem C01_grad_correct_rmsd : forall cell co e ref qopt ids (s : SYS),
+  ids_ok s ids -> ids <> [] -> length ref = length ids -> qopt_ok ref qopt ->
+  cvc_value Rops PI cell (mkCvc co e (KRmsd ref qopt) [plain_group ids]) s <> 0 ->
+  (forall Ds, ex_derive (fun t => fst (k_rmsd Rops ref qopt (move_gs [gdata_of Rops s (plain_group ids)] t Ds))) 0) ->
+  cvc_grad_correct cell (mkCvc co e (KRmsd ref qopt) [plain_group ids]) s.
+Proof. exact cvc_grad_correct_rmsd. Qed.
+Print Assumptions C01_grad_correct_rmsd.
+
 Theorem C01_grad_correct_inertia : forall cell co e ids (s : SYS),
   ids_ok s ids -> ids <> [] ->
   cvc_grad_correct cell (mkCvc co e KInertia [self_centred ids]) s.
@@ -217,3 +229,6 @@ Proof. exact ex_hill. Qed.
 (* the periodic disjunct of the harmonic guard is inhabited: value 10, centre 350, period 360 (image +20) *)
 Example C01_example_periodic : var_ok_h (mkVar 1 true 360 0) 10 350.
 Proof. exact ex_periodic. Qed.
+(* the solver hypothesis of C01_grad_correct_rmsd is inhabited (all-zero reference: every unit quaternion is optimal) *)
+Example C01_example_qopt : qopt_ok [vzero Rops; vzero Rops; vzero Rops] (fun _ => (1, 0, 0, 0)).
+Proof. exact ex_qopt. Qed.
